@@ -35,6 +35,10 @@ func noteHang(evs []Event) {
 			hungScenarios++
 			return
 		}
+		if n, ok := e["n"].(int); ok && e["ev"] == "leak" && n > 0 {
+			hungScenarios++ // waiting for leaked goroutines costs seconds per scenario as well
+			return
+		}
 	}
 }
 func tooManyHangs() bool { return hungScenarios >= hangBudget }
